@@ -446,7 +446,8 @@ def check_C09(chk):
         "get_or_insert = get().unwrap_or_else(insert); (d) sample::Map is constructed only in FromIterator::from_iter, which assigns "
         "population ids by calling get_or_insert once per entry in iteration order, and every sample-list source funnels into it; (e) per-record "
         "lookups index counts/totals by the population id looked up by sample *name* (no column counter); (f) Map::shape walks ids 0..len; "
-        "(g) empty-map and unknown-sample errors dominate the construction of the site reader.")
+        "(g) empty-map and unknown-sample errors dominate the construction of the site reader; (i) a population label / sample name is stored "
+        "verbatim (only identity conversions between the given string and the stored one), so two labels are one population iff they are equal.")
     chk.not_decided = "end-to-end invariance under permutations of columns/list entries (a relation between runs); clap's splitting of the --samples value"
     c09ab(chk)
     c09c(chk)
@@ -455,7 +456,8 @@ def check_C09(chk):
     c09f(chk)
     c09g(chk)
     c09h(chk)
-    for r, n in (("C09.h", 4), ("C09.a", 2), ("C09.b", 7), ("C09.c", 3), ("C09.d", 10), ("C09.e", 3), ("C09.f", 2), ("C09.g", 2)):
+    c09i(chk)
+    for r, n in (("C09.i", 2), ("C09.h", 4), ("C09.a", 2), ("C09.b", 7), ("C09.c", 3), ("C09.d", 10), ("C09.e", 3), ("C09.f", 2), ("C09.g", 2)):
         chk.floor(r, n)
 
 
@@ -1174,6 +1176,13 @@ def c12d(chk):
                 chk.ob("C12.d", "gzip-decoder@%s/multi-member" % RP.norm_fn(h.path).split("sfs_core::")[-1], multi, h.loc(b),
                        "%s: BGZF input must be decoded across gzip member boundaries (block layout must not matter)" % pth)
     chk.ob("C12.d", "gzip-decoders/found", n >= 1, "", "%d flate2 decoder construction(s) in the workspace" % n, nontrivial=False)
+    # a window of k bytes compared with an n-byte magic number can only be equal when k == n (otherwise that container is never recognised)
+    import rules_io as RIO
+    wc = RIO.window_constant_compares(prog, lambda h_: h_.path.startswith("sfs_core::input::"))
+    for h, b, w, n_ in wc:
+        chk.ob("C12.d", "magic-compare@%s/window-length=constant-length" % RP.norm_fn(h.path).split("sfs_core::")[-1], w == n_, h.loc(b),
+               "a %d-byte window of the input is compared with a %d-byte constant" % (w, n_))
+    chk.ob("C12.d", "magic-compares/found", True, "", "%d constant-range window comparison(s) with a fixed-size constant in the input layer" % len(wc), nontrivial=False)
     # container and compression are always decided from the content: the explicit setters have no caller in the workspace
     for nm in ("set_format", "set_compression_method"):
         cs = prog.callers_of(GENO_BUILDER + "::" + nm)
@@ -1182,3 +1191,60 @@ def c12d(chk):
     # classification funnel shared (C08.d)
     c08 = [i for i in prog.impls if i.get("trait") and i["trait"]["path"] == "sfs_core::input::genotype::reader::Reader"]
     chk.ob("C12.d", "genotype::Reader/two-impls-one-classifier", len(c08) == 2, "", "vcf and bcf readers are the only implementations; both map through genotype::Result::from (checked by C08.d)")
+
+
+IDENTITY_CONVERSIONS = ("alloc::string::ToString::to_string", "core::convert::Into::into", "core::convert::From::from", "alloc::borrow::ToOwned::to_owned",
+                        "core::clone::Clone::clone", "core::convert::AsRef::as_ref", "alloc::string::String::as_str", "core::ops::Deref::deref",
+                        "core::borrow::Borrow::borrow", "alloc::str::<impl str>::to_owned", "alloc::string::String::from_str", "core::str::FromStr::from_str")
+
+
+def verbatim_chain(f, op):
+    """calls other than identity conversions between an operand and the parameter / payload it derives from"""
+    bad = []
+    l = op_local(op)
+    if l is None:
+        p = op_place(op)
+        l = p[0] if p else None
+    n = 0
+    while l is not None and n < 24:
+        n += 1
+        d = f.single_def(f.copy_root(l))
+        if d is None:
+            break
+        if d[0] == "assign" and d[3]["k"] in ("use", "ref", "cast"):
+            src = d[3].get("op")
+            p = op_place(src) if src is not None else P(d[3]["place"])
+            if p is None:
+                break
+            l = p[0]
+            continue
+        if d[0] == "call":
+            nm = d[2]["callee"].get("path") or ""
+            if nm not in IDENTITY_CONVERSIONS and not (nm.startswith("<sfs_core::input::sample::") and "From" in nm):
+                bad.append(callee_name(d[2]["callee"]))
+            if not d[2]["args"]:
+                break
+            l = op_local(d[2]["args"][0])
+            if l is None:
+                p = op_place(d[2]["args"][0])
+                l = p[0] if p else None
+            continue
+        break
+    return bad
+
+
+def c09i(chk):
+    prog = chk.prog
+    for adt, variant, what in (("sfs_core::input::sample::population::Population", "Named", "population label"), ("sfs_core::input::sample::Sample", "Sample", "sample name")):
+        n = 0
+        for f in prog.fn_list:
+            if f.derived:
+                continue
+            for b, i, p, rv, s_ in f.assigns():
+                if rv["k"] == "aggregate" and rv.get("adt") == adt and rv.get("variant") == variant and rv["ops"]:
+                    n += 1
+                    bad = verbatim_chain(f, rv["ops"][0])
+                    chk.ob("C09.i", "%s@%s/stored-verbatim" % (adt.split("::")[-1] + "::" + variant, RP.norm_fn(f.path).split("sfs_core::")[-1]), not bad, f.loc(b),
+                           "the %s is stored as given: only identity conversions may lie between the argument and the stored string (found %s); "
+                           "anything else (trimming, case folding) merges or splits populations" % (what, bad))
+        chk.ob("C09.i", "%s::%s/constructed-somewhere" % (adt.split("::")[-1], variant), n >= 1, "", "%d construction site(s)" % n, nontrivial=False)
